@@ -38,6 +38,9 @@ Definition fault_sites (a : list N) : list site :=
   else if op =? 8 then enc_sites B3 true false t data q
   else if (op =? 10) || (op =? 11) then dec_sites t q
   else if (op =? 12) || (op =? 13) then copy_sites B3 (intact (okind_of (arg a 8)) data bs)
+  else if (op =? 16) || (op =? 17) then
+    (* the outboard validators: the same walk without the data reads *)
+    filter (fun s => obj_eqb (s_obj s) OObLoad) (valid_ranges_sites t q)
   else valid_ranges_sites t q.
 
 Definition run_fault (a : list N) : list N :=
